@@ -126,6 +126,11 @@ class PyxModule:
             self.tree = ast.parse(self.text, filename=path)
         except SyntaxError as e:
             raise AnalysisError("pyx-front-end", f"{path}:{e.lineno}", f"rewritten Cython source does not parse: {e.msg}")
+        # the same front-end normalisation as for .py modules: helpers that are not in the pinned tree are folded back
+        from .inline import normalise_program
+        from .loader import _relayout
+        if normalise_program({path: self.tree}):
+            self.tree = _relayout(self.tree, path)
         set_parents(self.tree)
         self.tree._module = self
         self.env = {}
